@@ -199,11 +199,23 @@ fn main() {
             }
             recipes.push(rc);
         }
+        // directed, always-run: executables / shared objects whose SECTION TABLE contains the marker sections
+        for (k, (kind, markers)) in [(Kind::Pie, 7u8), (Kind::Exec, 7), (Kind::Pie, 5), (Kind::Exec, 6)].iter().enumerate() {
+            let rc = Recipe { g: "gadget".into(), state: 7201 + 2 * k as u64, kind: *kind,
+                gadgets: ["CWE782", "CWE676", "CWE243", "CWE560", "CWE476", "CWE367", "CWE426"].iter().map(|s| s.to_string()).collect(),
+                split: k % 2 == 1, extra: 0, cfg_lkm: false, shared: false, markers: *markers };
+            let id = recipes.len();
+            jobs.push(Job { input_id: id, partial: None, tag: "exec-markers-default-directed" });
+            for p in ["CWE782,CWE676", "CWE243,CWE426", &all_names.join(",")] {
+                jobs.push(Job { input_id: id, partial: Some(p.to_string()), tag: "exec-markers-partial-directed" });
+            }
+            recipes.push(rc);
+        }
         let n_directed = recipes.len();
         for i in n_directed..n_directed + n_inputs {
             let rc = Recipe::random_gadget(&mut rng);
             let avail = if rc.cfg_lkm { &avail_lkm } else { &all_names };
-            jobs.push(Job { input_id: i, partial: None, tag: if rc.kind == Kind::Lkm && rc.markers == 3 { "lkm-default" } else { "default" } });
+            jobs.push(Job { input_id: i, partial: None, tag: if rc.kind == Kind::Lkm && rc.markers & 3 == 3 { "lkm-default" } else { "default" } });
             for _ in 0..n_sel {
                 let (p, tag) = random_partial(&mut rng, avail);
                 jobs.push(Job { input_id: i, partial: Some(p), tag });
